@@ -1,18 +1,6 @@
-# table of claimed properties (exec'd by mkmanifest.py)
+# table of claimed properties (exec'd by mkmanifest.py): one file per property in tools/manifest/
+import glob as _glob, os as _os
 CLAIMED = {}
 NOT_CLAIMED = {}
-
-CLAIMED['C07'] = dict(
-	text='Ten Coq theorems (Props/C07.v, closed under the global context) about the definitions that tools/pyx2v.py '
-	     'regenerates from kmers.pyx on every run: kmer_to_index is the positional base-4 code for <=32 nucleotides in '
-	     'either case and ValueError otherwise (C uint64 wrap-around modelled and proved unreachable), index_to_kmer is its '
-	     'inverse on [0,4^k), case-insensitivity, revcomp = mirrored complement and an involution, and kmer_to_index_rc = '
-	     'kmer_to_index o revcomp including the error cases -- for every k and every byte string, no size bound. The tie to '
-	     'the code is checked on every run: the model is re-translated from the .pyx text (a change there breaks the proofs) '
-	     'and the compiled extension, the generated model and the extracted specification are run on the same inputs '
-	     '(all k-mers k<=7/8, all byte strings of length<=2, boundary and random k-mers/indices up to 2^64-1).',
-	note='Trusted: Coq kernel; tools/pyx2v.py and its reading of C semantics; extraction + OCaml driver; that the compiled '
-	     '.so corresponds to kmers.pyx (Cython is not installed here, so .pyx->.c cannot be redone; the .so is what the '
-	     'correspondence run executes). Inputs are byte strings (0..255); Python-int -> C int conversion of k assumed in range.',
-	technique='Coq proof over a model generated from the .pyx source + differential correspondence run',
-)
+for _f in sorted(_glob.glob(_os.path.join(HERE, 'tools', 'manifest', 'C*.py'))):
+	exec(open(_f).read())
